@@ -215,6 +215,11 @@ def scripted_histories():
         # a rename (copy + delete of the original), and a swap of two files' contents
         H.append([("w", "A", "old-name", V1), ("w", "B", "old-name", V1), ("s",), ("w", side, "new-name", V1), ("d", side, "old-name"), ("s",), ("s",)])
         H.append([("w", "A", "p", V1), ("w", "B", "p", V1), ("w", "A", "q", V2), ("w", "B", "q", V2), ("s",), ("w", side, "p", V2), ("w", side, "q", V1), ("s",), ("s",)])
+    # a pair of a few thousand files (the recorded common state is well over 1 MiB of JSON): whatever is bounded,
+    # batched or parallelised by count or by size has to get across its threshold - the run after the first one must
+    # still find its record, plan nothing, and a one-sided delete must still be a delete
+    many = [("w", "A", "tree/d%02d/f%04d" % (i % 37, i), b"file %d" % i) for i in range(3000)]
+    H.append(many + [("s",), ("s",), ("d", "A", "tree/d00/f0000"), ("w", "B", "tree/d01/f0001", b"edited on B"), ("s",), ("s",)])
     return H
 
 
